@@ -32,12 +32,19 @@ def evaluate(pid, sources=None, overrides=None, tier="quick", seed=0):
         if len(prog.modules) < 40:
             raise AnalysisError(f"only {len(prog.modules)} units parsed under {prog.root}/ixai (expected >= 40)")
         run = Run(pid, prog, tier, seed)
+
+        def hazards():
+            # constructs that are wrong wherever they occur, met in the code this check has analysed (ir.Program.hazard)
+            for kind, where, func, construct, message in prog.hazards:
+                run.fail("HAZARD", f"{kind}:{construct}", where, func, construct, message)
         try:
             mod.check(run)
+            hazards()
         except Refuted as r:
             run.fail(r.rule, r.instance, r.where, r.func, r.construct, r.message)
         except (AnalysisError, ir.Unsupported) as e:
             # a clause that could not be decided does not take back a violation that was already established
+            hazards()
             if not run.findings:
                 raise
             run.notes["undecided_after_findings"] = f"{type(e).__name__}: {e}"
